@@ -126,9 +126,47 @@ func (w *vWriter) Write(p []byte) (int, error) {
 	return len(p), nil
 }
 
-type vError struct{ s string }
+type vError struct {
+	s    string
+	wrap error
+}
 
 func (e *vError) Error() string { return e.s }
+func (e *vError) Unwrap() error { return e.wrap }
 
-var vErrWrite error = &vError{"verif: write failed"}
-var vErrRead error = &vError{"verif: read failed"}
+var vErrWrite error = &vError{s: "verif: write failed"}
+var vErrRead error = &vError{s: "verif: read failed"}
+var vErrReadEOF error = &vError{s: "verif: read failed: EOF", wrap: io.EOF} // an error whose chain contains io.EOF
+
+// vFailReader delivers b in chunks of Chunk bytes (0 = all at once) and fails with vErrRead once FailAfter
+// bytes have been delivered (FailAfter < 0: never; it then ends with io.EOF). It has no Bytes method, so
+// parse.NewInput goes through io.ReadAll.
+type vFailReader struct {
+	b         []byte
+	pos       int
+	Chunk     int
+	FailAfter int
+	Err       error
+}
+
+func (r *vFailReader) Read(p []byte) (int, error) {
+	if r.FailAfter >= 0 && r.pos >= r.FailAfter {
+		if r.Err != nil {
+			return 0, r.Err
+		}
+		return 0, vErrRead
+	}
+	if r.pos >= len(r.b) {
+		return 0, vEOF
+	}
+	end := len(r.b)
+	if r.Chunk > 0 && r.pos+r.Chunk < end {
+		end = r.pos + r.Chunk
+	}
+	if r.FailAfter >= 0 && r.FailAfter < end {
+		end = r.FailAfter
+	}
+	n := copy(p, r.b[r.pos:end])
+	r.pos += n
+	return n, nil
+}
